@@ -344,6 +344,97 @@ func runLoc(id, rest string, obs *vh.LineWriter, st *vh.Stats) {
 	st.Case("loc "+rest, true, "")
 }
 
+// ---------------------------------------------------------------- ext
+
+// <id> ext files=<hexpath:size,...|-> entries=<hexname:f|d:size,...|->
+func runExt(id, rest string, obs *vh.LineWriter, st *vh.Stats) {
+	f := fields(rest)
+	fs := hooks.NewMemFS()
+	_ = fs.MkdirAll("/src", 0755)
+	have := map[string]int64{}
+	if f["entries"] != "-" {
+		for _, e := range strings.Split(f["entries"], ",") {
+			p := strings.Split(e, ":")
+			name := string(vh.UnHex(p[0]))
+			if p[1] == "d" {
+				_ = fs.MkdirAll("/src/"+name, 0755)
+				have[name] = -1
+			} else {
+				writeFile(fs, "/src/"+name, make([]byte, u64(p[2])))
+				have[name] = int64(u64(p[2]))
+			}
+		}
+	}
+	var ss pb.Snapshot
+	want := true
+	if f["files"] != "-" {
+		for i, e := range strings.Split(f["files"], ",") {
+			p := strings.Split(e, ":")
+			fp := string(vh.UnHex(p[0]))
+			ss.Files = append(ss.Files, &pb.SnapshotFile{Filepath: fp, FileSize: u64(p[1]), FileId: uint64(i + 1)})
+			if sz, ok := have[fs.PathBase(fp)]; !ok || sz != int64(u64(p[1])) {
+				want = false
+			}
+		}
+	}
+	var ok bool
+	var err error
+	p := vh.Catch(func() { ok, err = tools.VerifHasAllExternalFiles(ss, "/src", fs) })
+	switch {
+	case p != "":
+		obs.Printf("%s ext PANIC\n", id)
+	case err != nil:
+		obs.Printf("%s ext ERR\n", id)
+	case ok:
+		obs.Printf("%s ext COMPLETE\n", id)
+	default:
+		obs.Printf("%s ext INCOMPLETE\n", id)
+	}
+	if p == "" && err == nil && ok != want {
+		st.Violation(id, "hasAllExternalFiles verdict differs from 'every recorded external file is present with its recorded size'")
+	}
+	st.Count("ext." + map[bool]string{true: "complete", false: "incomplete"}[ok])
+	st.Case("ext "+rest, true, "")
+}
+
+func genExt(r *vh.Rand) string {
+	names := []string{"external-file-1", "external-file-2", "external-file-3", "x"}
+	sizes := []uint64{1, 9, 10, 100}
+	var es, fl []string
+	seen := map[string]bool{}
+	for i := 0; i < r.Intn(5); i++ {
+		nm := names[r.Intn(len(names))]
+		if seen[nm] {
+			continue
+		}
+		seen[nm] = true
+		if r.Chance(1, 8) {
+			es = append(es, vh.Hex([]byte(nm))+":d:0")
+		} else {
+			es = append(es, fmt.Sprintf("%s:f:%d", vh.Hex([]byte(nm)), sizes[r.Intn(len(sizes))]))
+		}
+	}
+	for i := 0; i < r.Intn(4); i++ {
+		nm := names[r.Intn(len(names))]
+		sz := sizes[r.Intn(len(sizes))]
+		// mostly consistent with the directory
+		for _, e := range es {
+			p := strings.Split(e, ":")
+			if string(vh.UnHex(p[0])) == nm && p[1] == "f" && !r.Chance(1, 5) {
+				sz = u64(p[2])
+			}
+		}
+		fl = append(fl, fmt.Sprintf("%s:%d", vh.Hex([]byte("/old/host/snapshot-000A/"+nm)), sz))
+	}
+	j := func(l []string) string {
+		if len(l) == 0 {
+			return "-"
+		}
+		return strings.Join(l, ",")
+	}
+	return fmt.Sprintf("ext files=%s entries=%s", j(fl), j(es))
+}
+
 // ---------------------------------------------------------------- ls
 
 const lsShard, lsReplica = 7, 3
@@ -802,6 +893,7 @@ func gen(a vh.Args) {
 	if a.Tier == "thorough" {
 		nCM, nImg, nLoc, nLS, nE2E = 6000, 1500, 400, 300, 12
 	}
+	nExt := nLoc
 	if a.N > 0 {
 		nCM, nImg, nLoc, nLS = a.N, a.N/3+1, a.N/6+1, a.N/15+1
 		nE2E = a.N/200 + 1
@@ -819,6 +911,9 @@ func gen(a vh.Args) {
 	}
 	for i := 0; i < nLoc; i++ {
 		emit(genLoc(r))
+	}
+	for i := 0; i < nExt; i++ {
+		emit(genExt(r))
 	}
 	for i := 0; i < nLS; i++ {
 		emit(genLS(r, []string{"pebble", "tan"}[i%2]))
